@@ -511,6 +511,7 @@ class World:
         self.iter_start_since_pong = {"c": 0, "s": 0}
         self.asked = {"c": False, "s": False}
         self.over_budget = []
+        self.echoes = []            # messages an end queued WHILE handling a received TCP_EOF / TCP_STOP_SENDING (c02_no_echo)
         self.log = []               # micro-step events (model input)
         self.real_snaps = []        # canonical states at each S
         self.real_waits = []
@@ -755,10 +756,19 @@ class World:
             w.rec = {"conn": "d", "recv": "a", "send": "a", "shut": "1"}
             idx = len(w.log)
             w.log.append(None)
+            # c02_no_echo: handling a received TCP_EOF / TCP_STOP_SENDING queues no message at all (observed at Mux.send)
+            n_sent = len(w.sent_log[side])
+            ssn = w.ssnet
+            mwr = getattr(m.channels.get(channel), "__self__", None) if cmd in (ssn.CMD_TCP_EOF, ssn.CMD_TCP_STOP_SENDING) else None
+            before = (bool(getattr(mwr, "shut_read", None)), bool(getattr(mwr, "shut_write", None)))
             try:
                 return o_gp(channel, cmd, data)
             finally:
                 w.log[idx] = "D:%s:%s:%s" % (side, w.rec["conn"], w.rec["shut"])
+                if cmd in (ssn.CMD_TCP_EOF, ssn.CMD_TCP_STOP_SENDING) and len(w.sent_log[side]) > n_sent:
+                    w.echoes.append({"side": side, "identifier": channel, "received": cmd, "micro_step": idx,
+                                     "queued_while_handling_it": [c for c, _l, _t in w.sent_log[side][n_sent:]],
+                                     "tunnel_side_shut_read_before": before[0], "tunnel_side_shut_write_before": before[1]})
 
         def send(channel, cmd, data):
             w.sent_log[side].append((cmd, len(data), bool(m.too_full)))
@@ -1637,6 +1647,18 @@ def check_oracles(w):
                            "flow's handler, socket and identifier until unrelated traffic wakes the sleeper",
                            dict(sq, still_asleep_at_the_end=bool(w.blocked[sq["side"]] and w.mux[sq["side"]].outbuf),
                                 finding_id="F160" if late else None)))
+    # "without echo" (Props/C02.v c02_no_echo: mux_got_packet of a CEof / CStop frame leaves the outgoing queue as it
+    # was): a received TCP_EOF / TCP_STOP_SENDING only sets the flag — an end says TCP_EOF / STOP_SENDING for a reason
+    # of its own (its socket reached end of stream / can no longer be written), from its callback, never in answer
+    cname = {0x4204: "STOP_SENDING", 0x4205: "TCP_EOF"}
+    for ec in getattr(w, "echoes", [])[:1]:
+        q = [cname.get(c, "message 0x%04x" % c) for c in ec["queued_while_handling_it"]]
+        out["C02"].append(("the %s end queued %s for a flow in reaction to receiving %s for it (inside Mux.got_packet), "
+                           "not because its own socket had reached end of stream or failed — the peer that sent the message "
+                           "knows already; a half-close of one direction is echoed onto the other direction"
+                           % ({"c": "client", "s": "server"}[ec["side"]], " + ".join(q),
+                              cname.get(ec["received"], hex(ec["received"]))),
+                           dict(ec, echoes_in_this_run=len(w.echoes))))
     # latency control on: an end never queues stream payload far beyond its budget without having asked for an
     # acknowledgement (budget + 2048 bytes per callback, at most 4 callbacks per connection and iteration)
     for ob in getattr(w, "over_budget", [])[:1]:
@@ -2148,6 +2170,7 @@ class ServerChild:
             if i >= 0:
                 fr = decode_frames(self.buf[i + 14:])
                 if len(fr) >= 2:
+                    self.start_frames = fr          # (with a budget of a few bytes the server's own PING may be among them)
                     self.buf = self.buf[i + 14 + sum(8 + len(d) for _, _, d in fr):]
                     return True
             if not self.pump(0.25) and self.p.poll() is not None:
@@ -2358,6 +2381,140 @@ def server_reader_run(child, kind, spec, prop, listener=None):
             "destination_was_connected": conn is not None, "server_state": state}
 
 
+BUDGET_SCENARIO = "bulk_download_acknowledgement_withheld"
+BUDGET_SOURCE_BYTES = 300000
+
+
+def server_budget_run(lbs, source_bytes=BUDGET_SOURCE_BYTES):
+    """C09, the budget the real server.main REALLY works with: run it with --latency-buffer-size `lbs` (latency control
+    on), open ONE connection through it to a loopback destination that sends `source_bytes` at once, never answer the
+    server's round-trip request, and count the stream payload (TCP_DATA) the server puts on the tunnel until it sleeps in
+    select() with the destination still having data for it.  Returns (measurement, None) or (None, reason-skipped)."""
+    import select
+    import time
+    try:
+        src = real_socket.socket(real_socket.AF_INET, real_socket.SOCK_STREAM)
+        src.bind(("127.0.0.1", 0))
+        src.listen(4)
+    except OSError:
+        return None, "no_loopback"
+    child = ServerChild(lbs)
+    conn = None
+    try:
+        if not child.start():
+            return None, "child_did_not_start"
+        host, port = src.getsockname()[:2]
+        chan = 1
+        child.send(_frame(chan, 0x4203, b"%d,%s,%d" % (int(real_socket.AF_INET), host.encode(), port)))
+        data = (pattern(5, 0, 1 << 16) * (source_bytes // (1 << 16) + 1))[:source_bytes]
+        sent, idle, state, t_end = 0, 0, "timeout", time.time() + 30.0
+        while time.time() < t_end:
+            before = len(child.buf)
+            alive = child.pump(0.05)
+            progressed = len(child.buf) != before
+            if conn is None:
+                r, _, _ = select.select([src], [], [], 0)
+                if r:
+                    conn, _ = src.accept()
+                    conn.setblocking(False)
+                    progressed = True
+            if conn is not None and sent < len(data):
+                _, wr, _ = select.select([], [conn], [], 0)
+                if wr:
+                    try:
+                        n = conn.send(data[sent:sent + 65536])
+                        sent += n
+                        progressed = progressed or n > 0
+                    except (BlockingIOError, InterruptedError):
+                        pass
+                    except OSError:
+                        state = "destination_socket_failed"
+                        break
+            if not alive or child.p.poll() is not None:
+                child.pump(0)
+                state = "died"
+                break
+            asleep = child.waiting_for_input()
+            if conn is not None and sent > 0 and not progressed and child.unread_by_server() in (0, None) and asleep is not False:
+                idle += 1
+                if idle >= (4 if asleep is True else 20):
+                    state = "idle"
+                    break
+            else:
+                idle = 0
+        frames = list(getattr(child, "start_frames", [])) + decode_frames(child.buf)
+        payload = sum(len(d) for ch, cmd, d in frames if cmd == 0x4206 and ch == chan)
+        asked_at = None
+        for i, (ch, cmd, d) in enumerate(frames):
+            if cmd == 0x4201 and d == b"rttest":
+                asked_at = i
+                break
+        after = sum(len(d) for ch, cmd, d in frames[asked_at + 1:] if cmd == 0x4206) if asked_at is not None else 0
+        return {"latency_buffer_size": lbs, "scenario": BUDGET_SCENARIO, "server_state": state,
+                "stream_payload_bytes_the_server_queued_on_the_tunnel": payload,
+                "round_trip_request_seen": asked_at is not None,
+                "stream_payload_bytes_after_the_request": after,
+                "other_payload_bytes_from_the_server_since_start": sum(len(d) for ch, cmd, d in frames if cmd != 0x4206),
+                "bytes_the_destination_had_handed_to_its_socket": sent, "bytes_the_destination_has_in_all": len(data),
+                "exit_status": child.p.poll(),
+                "server_stderr_tail": child.stderr_tail() if state == "died" else ""}, None
+    finally:
+        if conn is not None:
+            conn.close()
+        src.close()
+        child.close()
+
+
+def server_budget_check(ctx, rng, only=None):
+    """the oracle on server_budget_run: by c09_bound (coq/Props/C09.v) an end that is not waiting for an acknowledgement
+    queues at most one 2048-byte frame per Proxy callback and none while it waits; check_fullness runs after every loop
+    iteration and runonce issues at most 4 callbacks per live connection — so with ONE connection and the acknowledgement
+    withheld the server queues at most (configured size) + 4*2048 bytes of stream payload, asks, and queues nothing more."""
+    quick = ctx.quick()
+    if only is not None:
+        sizes = [only["latency_buffer_size"]]
+    elif quick:
+        sizes = [1, 256, rng.choice([2047, 2048, 2049]), rng.randint(1, 40000), rng.choice([32767, 32768]), 40000]
+    else:
+        sizes = [1, 256, 2047, 2048, 2049, 32767, 32768, 40000] + [rng.randint(1, 40000) for _ in range(16)]
+    found = []
+    for lbs in sizes:
+        m, skipped = server_budget_run(lbs)
+        if m is None:
+            ctx.count("server_budget_skipped_%s" % skipped)
+            if skipped == "no_loopback":
+                break
+            continue
+        ctx.case(("server-reader", "C09", lbs, BUDGET_SCENARIO), nontrivial=m["stream_payload_bytes_the_server_queued_on_the_tunnel"] > 0
+                 or m["round_trip_request_seen"])
+        ctx.count("server_reader_%s" % BUDGET_SCENARIO)
+        ctx.count("server_budget_state_%s" % m["server_state"])
+        bound = lbs + 4 * 2048
+        m["bound"] = bound
+        q = m["stream_payload_bytes_the_server_queued_on_the_tunnel"]
+        what = None
+        if q > bound or m["stream_payload_bytes_after_the_request"] > 0:
+            what = ("server.main run with --latency-buffer-size %d queued %d stream payload bytes on the tunnel for ONE connection "
+                    "%s (bound: configured size + 4*2048 = %d, c09_bound; %d of them after its own round-trip request); the "
+                    "acknowledgement was withheld throughout" %
+                    (lbs, q, "before waiting for the PING reply" if m["round_trip_request_seen"] else
+                     "and never asked for an acknowledgement", bound, m["stream_payload_bytes_after_the_request"]))
+        elif m["server_state"] == "idle" and not m["round_trip_request_seen"]:
+            what = ("server.main run with --latency-buffer-size %d went to sleep in select() after %d stream payload bytes of a "
+                    "bulk download although the destination has more, without having asked for an acknowledgement (no PING "
+                    "'rttest' on the tunnel): nothing will ever resume the transfer" % (lbs, q))
+        elif m["server_state"] == "died":
+            what = ("the real server.main (--latency-buffer-size %d) ended during a bulk download whose acknowledgement was "
+                    "withheld" % lbs)
+        if what is None:
+            continue
+        found.append(m)
+        ctx.violation(what, {"server_reader": m})
+        if len(found) >= 2:
+            break
+    return found
+
+
 def server_reader_check(ctx, prop, only=None):
     """C01 / C09 at the SERVER's end of the ssh channel: the multiplexer of the real server.main reads descriptor 0
     through whatever object server.main builds for it, and is only woken when select() reports descriptor 0 readable.
@@ -2370,6 +2527,8 @@ def server_reader_check(ctx, prop, only=None):
     import random
     quick = ctx.quick()
     rng = random.Random(ctx.rng.randrange(1 << 30))
+    if only is not None and only.get("scenario") == BUDGET_SCENARIO:
+        return server_budget_check(ctx, rng, only)
     if only is not None:
         sizes = [only["latency_buffer_size"]]
     elif quick:
@@ -2439,6 +2598,9 @@ def server_reader_check(ctx, prop, only=None):
     finally:
         if listener is not None:
             listener.close()
+    if prop == "C09" and only is None:
+        # the budget the server really applies (after everything above, so that the cases above keep their random sequence)
+        found += server_budget_check(ctx, rng)
     return found
 
 
